@@ -8,8 +8,10 @@ TB = ("Lean 4.33 kernel with propext/Classical.choice/Quot.sound only (audited p
       "analysis,loads} are oracles or pre-processing (DESIGN.md section 8).")
 CHECKS = {
  "C01": ("Kernel-checked theorem that the implementation model of the validator tree (all eight keyword groups, MatchCount and best-failure "
-         "bookkeeping, $ref by fuel) accepts exactly what a draft-4 specification accepts: full strength for the repaired configuration, "
-         "under explicit no-trigger hypotheses for the code as it is, with a decide-witness per open deviation switch. The model is tied to "
+         "bookkeeping, $ref by fuel) accepts exactly what a draft-4 specification accepts: full strength for the repaired configuration; for the code "
+         "exactly as it is (every open deviation switch as in the source, the IMPORTANT!-message leak included: a second induction shows that "
+         "no result carries such a message on an instance without a headers member holding $ref objects) under one explicit no-trigger "
+         "hypothesis per open deviation, with a decide-witness per switch. The model is tied to "
          "the Go code by a differential correspondence (verdict, match count, error set) on generated schema/instance pairs; every "
          "code-vs-specification disagreement must be attributed to a listed known finding by flipping its switch in the model.",
          "Lean 4 proof (mutual structural induction over schemas) + differential correspondence with switch attribution", "DESIGN.md §6 C01"),
